@@ -45,6 +45,28 @@ def make_dc(names):
     return _dc_cache[key]
 
 
+_dcs_cache = {}
+
+
+def make_dcs(names):
+    """a dataclass whose odd fields are not arguments of the constructor (init=False: set on the object afterwards), with an InitVar
+    pseudo-field without a default value and a ClassVar that counts the instances: neither is a field of the value"""
+    key = tuple(names)
+    if key not in _dcs_cache:
+        import typing
+        ns = {"instances": 0}
+
+        def post(self, scale):
+            type(self).instances += 1
+        fields = [(n, typing.Any, dataclasses.field(default=None, init=(i % 2 == 0))) for i, n in enumerate(names)]
+        fields += [("scale", dataclasses.InitVar[int]), ("instances", typing.ClassVar[int])]
+        # (InitVar without default must come before the fields with defaults: declare it first)
+        fields = [fields[-2]] + fields[:-2] + [fields[-1]]
+        _dcs_cache[key] = dataclasses.make_dataclass("DCS_" + "_".join(names) if names else "DCS_empty", fields,
+                                                     namespace={"__post_init__": post, "instances": 0})
+    return _dcs_cache[key]
+
+
 def dec(j):
     """JSON encoding -> python value (inverse of enc on the generated universe)"""
     t = j["t"]
@@ -70,6 +92,14 @@ def dec(j):
     if t == "dc":
         cls = make_dc([n for (n, _) in v])
         return cls(*[dec(x) for (_, x) in v])
+    if t == "dcs":
+        cls = make_dcs([n for (n, _) in v])
+        vals = [dec(x) for (_, x) in v]
+        obj = cls(7, *[x for i, x in enumerate(vals) if i % 2 == 0])
+        for i, (n, _) in enumerate(v):
+            if i % 2 == 1:
+                setattr(obj, n, vals[i])
+        return obj
     if t == "nt":
         import collections
         names = tuple(n for (n, _) in v)
@@ -168,13 +198,14 @@ def containers(elems, keys, full):
         out.append(jv("dc", [["k", x], ["a", y]]))
         out.append(jv("nt", [["k", x], ["a", y]]))
         out.append(jv("odict", [[keys[0], x], [keys[3], y]]))
+        out.append(jv("dcs", [["k", x], ["a", y]]))
     return out
 
 
 def random_value(rng, depth):
     if depth <= 0 or rng.random() < 0.3:
         return rng.choice(_ATOMS)
-    kind = rng.choice(["list", "tuple", "dict", "odict", "dc", "list", "list", "nt"])
+    kind = rng.choice(["list", "tuple", "dict", "odict", "dc", "list", "list", "nt", "dcs"])
     n = rng.choice([0, 1, 1, 2, 2, 3, 5])
     if kind in ("list", "tuple"):
         return jv(kind, [random_value(rng, depth - 1) for _ in range(n)])
@@ -216,9 +247,9 @@ def rewrite(j, rules):
         if "dict" not in rules:
             return jv(t, [[rewrite(k, rules), rewrite(x, rules)] for (k, x) in v])
         xs = [rewrite(jv("list", [k, x]), rules) for (k, x) in v]
-    elif t == "dc":
+    elif t in ("dc", "dcs"):
         if "dict" not in rules:
-            return jv(t, [[n, rewrite(x, rules)] for (n, x) in v])
+            return jv("dc", [[n, rewrite(x, rules)] for (n, x) in v])
         xs = [rewrite(jv("list", [jv("str", n), jv("list", [x])]), rules) for (n, x) in v]
     else:
         return j
@@ -262,7 +293,7 @@ def canon(j, rules=()):
         return ("l", tuple(canon(x) for (_, x) in v))
     if t in ("dict", "odict"):
         return ("d", tuple((canon(k), canon(x)) for (k, x) in v))
-    if t == "dc":
+    if t in ("dc", "dcs"):
         return ("dc", tuple((n, canon(x)) for (n, x) in v))
     raise ValueError(t)
 
@@ -285,8 +316,8 @@ def to_model(j):
         return jv(t, [to_model(x) for x in v])
     if t in ("dict", "odict"):
         return jv(t, [[to_model(k), to_model(x)] for (k, x) in v])
-    if t == "dc":
-        return jv(t, [[n, to_model(x)] for (n, x) in v])
+    if t in ("dc", "dcs"):
+        return jv("dc", [[n, to_model(x)] for (n, x) in v])
     return j
 
 
@@ -362,7 +393,7 @@ def run(ctx):
     maxlen = int(cfg.get_option("hash.max_sequence_size"))
     strata = [(maxlen, vals)]
     # second stratum: a small max_sequence_size so that SEQUENCE_TOO_LONG is reachable
-    strata.append((2, [j for j in vals if j["t"] in ("list", "tuple", "dict", "odict", "dc", "nt")][:1500]))
+    strata.append((2, [j for j in vals if j["t"] in ("list", "tuple", "dict", "odict", "dc", "nt", "dcs")][:1500]))
 
     for (mx, vs) in strata:
         cfg.set_option("hash.max_sequence_size", mx)
